@@ -89,6 +89,16 @@ class Site:
                 detail = resolve_upvar_text(b.program, b, detail)
             except Exception:  # noqa: BLE001
                 detail = self.detail
+        self._order = {}
+        self._shape = self.normalise(detail)
+        return self._shape
+
+    def normalise(self, detail):
+        """replace local / captured variable names by %1, %2, .. (numbering shared with shape())"""
+        b = self.body
+        if getattr(self, "_order", None) is None:
+            self._order = {}
+        order = self._order
         names = set()
         for l, d in enumerate(b.locals):
             nm = d.get("name")
@@ -97,7 +107,6 @@ class Site:
         for m in re.finditer(r"\^\*?([A-Za-z_]\w*)", detail):
             if m.group(1) != "self":
                 names.add(m.group(1))
-        order = {}
 
         def sub(m):
             w = m.group(0)
@@ -110,8 +119,7 @@ class Site:
             if w not in order:
                 order[w] = "%%%d" % (len(order) + 1)
             return order[w]
-        self._shape = re.sub(r"[A-Za-z_]\w*", sub, detail)
-        return self._shape
+        return re.sub(r"[A-Za-z_]\w*", sub, detail)
 
     def mac(self):
         return self.span.get("mac")
@@ -339,6 +347,31 @@ def t1_common(site):
         r = guard_lt_len(site)
         if r:
             return r
+    if site.kind == "index":
+        r = guard_prior_index(site)
+        if r:
+            return r
+    if site.kind == "slice-api" and site.api and "copy_from_slice" in site.api:
+        a = x.get("args") or []
+        if len(a) == 2:
+            dst, src = a
+            # the source is a copy (clone / to_vec are transparent in the expression tree) of the
+            # destination itself, or a vector allocated with the destination's length
+            def norm(e):
+                # `self` of a type whose Deref returns one of its fields is that field
+                b_ = site.body
+                prog = getattr(b_, "program", None)
+                if e[0] == "arg" and e[1] == 1 and prog is not None and b_.impl and b_.impl.get("self_ty"):
+                    d_ = prog.bodies.get("<%s as std::ops::Deref>::deref" % b_.impl["self_ty"])
+                    if d_ is not None:
+                        r_ = ExprBuilder(d_).local(0)
+                        if r_[0] == "field" and r_[1][0] == "arg" and r_[1][1] == 1:
+                            return ("field", e, r_[2])
+                return e
+            if canon(norm(dst)) == canon(norm(src)):
+                return "source is a copy of the destination (clone): equal lengths"
+            if src[0] == "call" and src[1].endswith("from_elem") and len(src[2]) == 2 and src[2][1][0] == "len" and canon(norm(src[2][1][1])) == canon(norm(dst)):
+                return "source is vec![_; len(destination)]: equal lengths"
     if site.kind == "slice-api" and site.api and "split_at" in site.api:
         a = x.get("args") or []
         if len(a) == 2:
@@ -351,16 +384,84 @@ def t1_common(site):
     return None
 
 
+_SHRINK = re.compile(r"::(truncate|clear|pop|drain|remove|swap_remove|split_off|retain|dedup\w*|set_len|resize\w*|shrink\w*)$")
+
+
+def guard_prior_index(site):
+    """`x[c..]` (c a constant) after `x[k]`, k >= c - 1, succeeded on every path to it: the earlier
+    access is bounds-checked, so len(x) >= k + 1 >= c and the range start is in range.  No call
+    that can shorten a Vec may sit in the function at all (coarse, but sound)."""
+    a = site.extra.get("args") or []
+    if len(a) != 2:
+        return None
+    obj, rng = a
+    if not (rng[0] == "agg" and rng[1].endswith("RangeFrom::RangeFrom") and rng[2] and rng[2][0][0] == "c" and isinstance(rng[2][0][1], int)):
+        return None
+    c = rng[2][0][1]
+    if c == 0:
+        return "x[0..] cannot fail"
+    b = site.body
+    eb = ExprBuilder(b)
+    dom = b.dominators().get(site.bb, ())
+    for bb, t in b.calls():
+        cal = t["callee"]
+        if cal["k"] == "fndef" and _SHRINK.search(callee_name(cal)):
+            return None
+    for bb, t in b.calls():
+        if bb == site.bb or bb not in dom:
+            continue
+        cal = t["callee"]
+        if cal["k"] != "fndef":
+            continue
+        nm = callee_name(cal)
+        if not (nm.endswith("Index<I>>::index") or nm.endswith("IndexMut<I>>::index_mut") or nm.endswith("::index") or nm.endswith("::index_mut")):
+            continue
+        if len(t["args"]) != 2:
+            continue
+        o2, i2 = eb.at(bb).op(t["args"][0]), eb.op(t["args"][1])
+        if i2[0] == "c" and isinstance(i2[1], int) and i2[1] >= c - 1 and canon(o2) == canon(obj):
+            return "a dominating access to element %d of the same object succeeded, so its length is at least %d and the range start %d is in range" % (i2[1], i2[1] + 1, c)
+    return None
+
+
 def site_guards(site):
     """normalised dominating guards of a site as strings `polarity: condition`"""
     from . import paths
     eb = ExprBuilder(site.body)
     out = []
-    for g in paths.guards(site.body, site.bb, eb):
-        out.append("%s: %s" % (g[0], show(g[1]) if len(g) > 1 and isinstance(g[1], tuple) else str(g[1:])))
-    # a closure runs only where it is constructed/used: add the guards of its construction site
     b = site.body
     prog = getattr(b, "program", None)
+    for g in paths.guards(site.body, site.bb, eb):
+        out.append("%s: %s" % (g[0], show(g[1]) if len(g) > 1 and isinstance(g[1], tuple) else str(g[1:])))
+        # `E.and_then(f)` / `E.filter(f)` / `E.map(..)` is Some  =>  E is Some, and (and_then, filter)
+        # whatever dominates every Some / true return of f holds for E's payload
+        e = g[1] if len(g) > 1 and isinstance(g[1], tuple) else None
+        if g[0] == "some" and e is not None and e[0] == "call" and len(e[2]) == 2 and prog is not None and \
+                e[1].rsplit("::", 1)[-1] in ("and_then", "filter") and "Option" in e[1]:
+            inner, clo = e[2]
+            out.append("some: %s" % show(inner))
+            cb = prog.bodies.get(clo[1][len("closure:"):]) if clo[0] == "agg" and clo[1].startswith("closure:") else None
+            if cb is not None and not cb.natural_loops():
+                ceb = ExprBuilder(cb)
+                common = None
+                for rbb, re_, item in paths.return_exprs(cb, ceb):
+                    yes = (re_[0] == "agg" and re_[1].endswith("Option::Some")) if e[1].endswith("and_then") else not (re_[0] == "c" and re_[1] is False)
+                    if e[1].endswith("and_then") and not (re_[0] == "agg" and re_[1].endswith("Option::None")) and not yes:
+                        common = set()      # an opaque return value: nothing can be concluded
+                        break
+                    if not yes:
+                        continue
+                    gs_ = set()
+                    for cg in paths.guards(cb, rbb, ceb):
+                        if cg[0] in ("true", "false") and isinstance(cg[1], tuple):
+                            gs_.add((cg[0], cg[1]))
+                    common = gs_ if common is None else (common & gs_)
+                payload = ("field", ("variant", inner, "Some"), "0")
+                from .loops import rewrite
+                for pol_, ce in sorted(common or (), key=lambda x: show(x[1])):
+                    sub_ = rewrite(ce, lambda n: payload if n[0] == "arg" and n[1] == 2 else None)
+                    out.append("%s: %s" % (pol_, show(sub_)))
+    # a closure runs only where it is constructed/used: add the guards of its construction site
     depth = 0
     while prog is not None and b is not None and b.kind == "Closure" and depth < 4:
         par = prog.bodies.get(getattr(b, "direct_parent", None) or b.parent)
@@ -431,6 +532,9 @@ def t2_match(ent, site, extra_text=""):
         return grx
     if len(ent) > 2:
         gs = site_guards(site)
+        if groups:
+            # tied guards are compared with the shape, so they are name-normalised the same way
+            gs = gs + [site.normalise(g) for g in gs]
         for grx in ent[2]:
             grx = tie(grx)
             if not any(re.search(grx, g) for g in gs):
